@@ -1,5 +1,5 @@
 # /verif build: full .vo build of the Coq development (and, later, the extracted driver)
-.PHONY: setup coq clean
+.PHONY: setup coq clean coqchk
 setup: coq
 coq:
 	PYTHONPATH=/verif /venv/bin/python -c 'from harness import extract; print(extract.regenerate())'
@@ -11,3 +11,8 @@ clean:
 driver: coq
 	cd driver && coqc -Q ../coq PV Extract.v && ocamlfind ocamlopt -O3 -package zarith -linkpkg -w -a sim.mli sim.ml main.ml -o simdriver
 setup: driver
+
+# independent re-check of every compiled property file and everything it depends on (about 90 s);
+# prints the axioms of the whole context (expected: functional_extensionality_dep only)
+coqchk: coq
+	cd coq && coqchk -silent -o -Q . PV $(foreach n,01 02 03 04 05 06 07 08 09 10 11 12 13 14 15 16 17 18 19 20,PV.Props.C$(n))
